@@ -578,7 +578,8 @@ func init() {
 		explain: "Escaping/unescaping inverses are net/url's (trusted); decided is that the code uses them in the one way that composes and never narrows numbers: R16.1 no PathEscape/QueryEscape-derived value is stored in the decoded fields of url.URL (Path, Host, Scheme) and RawQuery is exactly url.Values.Encode(); " +
 			"R16.2 every narrowing or sign-changing integer conversion reachable from ParseOTPAuthURL has an operand interval (from the ParseUint/ParseInt bit size or a dominating range gate) inside the target type, on linux/amd64 and linux/386; " +
 			"R16.3 writer/reader tables agree: every query key the parser reads is written with the identical literal, hash names written (algoStrMap) parse back to the same hash, scheme and the two type literals agree; R16.4 defaults agree (0→6 digits, 0→30 s, parser defaults 6/SHA-1/30); " +
-			"R16.5 field mapping: each URLParam field reaches its own query key / label half (label = \"/\"+issuer+\":\"+account) and the parser takes issuer/account from SplitN(TrimPrefix(Path,\"/\"), \":\", 2), secret/digits/period from their keys. Not decided: round-trip over all Unicode strings (net/url).",
+			"R16.5 field mapping: each URLParam field reaches its own query key / label half (label = \"/\"+issuer+\":\"+account) and the parser takes issuer/account from SplitN(TrimPrefix(Path,\"/\"), \":\", 2), secret/digits/period from their keys. Not decided: round-trip over all Unicode strings (net/url). " +
+			"R16.5 parsed-when-present: the store of a parsed digits/period value is conditioned only on the parameter being present, its parse having succeeded and range tests of the parsed number.",
 		trusted:  []string{"net/url: URL.String / url.Parse / Values.Encode / URL.Query are mutually inverse", "strconv.ParseUint(s, 10, bits) returns a value below 2^bits or an error"},
 		quick:    []Config{CfgNative},
 		thorough: []Config{CfgNative, Cfg386},
